@@ -178,3 +178,22 @@ Theorem C14_blech32_recognised_reencodes_closed : forall s p v k pr,
   from_blech32 s = Ok (p, v, k, pr) -> to_blech32 p v k pr = Ok (map to_lower s).
 Proof. exact (fun s p v k pr => blech32_recognised_reencodes s p v k pr regroup_back_law_holds). Qed.
 Print Assumptions C14_blech32_recognised_reencodes_closed.
+
+(* ---- network attribution is exclusive for EVERY string (after fix 233bf85 the whole human-readable
+   part is compared): the network NetworkForAddress names is the only one whose prefix / version fits ---- *)
+Theorem C14_attribution_exclusive : forall (b58dec : bytes -> option (bytes * byte)) s n,
+  network_for_address b58dec s = Ok n ->
+  In n nets /\
+  ((In (segwit_prefix s) (hrps n) /\ forall n', In n' nets -> In (segwit_prefix s) (hrps n') -> n' = n) \/
+   (net_by_hrp s = None /\ exists d v, b58dec s = Some (d, v) /\ In v (versions n) /\
+      forall n', In n' nets -> In v (versions n') -> n' = n)).
+Proof. exact attribution_exclusive. Qed.
+Print Assumptions C14_attribution_exclusive.
+
+(* a confidential segwit string recognised under network n IS the canonical encoding of
+   (n, version, blinding key, program): same prefix, and ToBlech32 gives back the very string *)
+Theorem C14_blech32_recognised_canonical : forall s n p v k pr, In n nets ->
+  is_hrp s (n_blech32 n) = true -> from_blech32 s = Ok (p, v, k, pr) ->
+  p = n_blech32 n /\ to_blech32 (n_blech32 n) v k pr = Ok s.
+Proof. exact blech32_recognised_canonical. Qed.
+Print Assumptions C14_blech32_recognised_canonical.
